@@ -23,6 +23,8 @@ def owners():
         d = json.loads(ev.read_text())
         for q in d["coverage"].get("functions_analysed", []):
             out.setdefault(q, set()).add(d["property_id"])
+            if ".<locals>." in q:          # a nested kernel's statements are also statements of its enclosing function
+                out.setdefault(q.split(".<locals>.")[0], set()).add(d["property_id"])
     return out
 
 
@@ -43,7 +45,13 @@ def functions(tree):
 def mutants_of(fn):
     """yields (description, mutate(copy_of_fn)) for each mutation site"""
     nodes = list(ast.walk(fn))
-    for idx, n in enumerate(nodes):
+    for idx, n, in enumerate(nodes):
+        for i_, d_, k_ in _mutants_at(idx, n):
+            yield i_, f"L{getattr(n, 'lineno', 0)}: {d_}", k_
+
+
+def _mutants_at(idx, n):
+    if True:
         if isinstance(n, ast.Compare) and len(n.ops) == 1 and type(n.ops[0]) in FLIP_CMP:
             yield idx, f"compare {type(n.ops[0]).__name__}->{FLIP_CMP[type(n.ops[0])].__name__} in `{ast.unparse(n)[:60]}`", "cmp"
         elif isinstance(n, ast.BinOp) and type(n.op) in SWAP_BIN:
